@@ -169,6 +169,8 @@ def run(ctx):
             for pt in symx.loop_paths(f, w, P):
                 if pt.end != "next":
                     continue
+                if any(k_[0] == "nz" and (".basewid].word" in k_[1] or k_[1].startswith("dict_basestr(")) and not v_ for k_, v_ in pt.atoms.items()):
+                    continue        # "the word has no text": not a case either pass could count or copy
                 sl = [c_ for c_ in pt.calls if c_[0] == "strlen"]
                 cp = [c_ for c_ in pt.calls if c_[0] in ("memcpy", "strcpy", "memmove")]
                 widk = [k_ for k_ in pt.atoms if k_[0] == "<" and k_[1].endswith("->fsglink->wid") and k_[2] == "0"]
